@@ -107,6 +107,82 @@ Proof.
     intros H. apply Hcr. apply in_or_app. now right.
 Qed.
 
+
+(* ---- the same with the weakest side conditions the repaired reader needs ----
+   The reader skips a CR at the start of a line and treats '>' at the start of a line (and at the
+   seek position) as the end of the sequence; every other CR / '>' is data. *)
+
+(* no non-blank sequence line (up to the next definition) starts with a CR *)
+Definition head_ok (l : list N) : Prop := forall x C, content l = x :: C -> x <> CR.
+
+Fixpoint heads_ok (ls : list (list N)) : Prop :=
+  match ls with
+  | [] => True
+  | l :: r => if is_def l then True else head_ok l /\ heads_ok r
+  end.
+
+Lemma heads_ok_of_no_cr : forall ls, ~ In CR (naive_bases ls) -> heads_ok ls.
+Proof.
+  induction ls as [|l r IH]; intros H; cbn [heads_ok naive_bases] in *; [exact I|].
+  destruct (is_def l); [exact I|]. split.
+  - intros x C E Hx. apply H. apply in_or_app. left. rewrite E. left. now symmetry.
+  - apply IH. intros Hin. apply H. apply in_or_app. now right.
+Qed.
+
+Lemma heads_ok_suffix : forall pre l r,
+  Forall (fun l => is_def l = false) pre -> heads_ok (pre ++ l :: r) -> heads_ok (l :: r).
+Proof.
+  induction 1 as [|p pre Hp F IH]; intros H; [exact H|].
+  cbn [app heads_ok] in H. rewrite Hp in H. apply IH. tauto.
+Qed.
+
+Lemma rsl_from_start_gen : forall ls max,
+  proper ls -> heads_ok ls -> 0 < max ->
+  rsl_lines ls max = firstn (N.to_nat max) (naive_bases ls).
+Proof.
+  induction ls as [|l rest IH]; intros max Hp Hh Hmax.
+  - cbn. now rewrite firstn_nil.
+  - cbn [naive_bases heads_ok] in *. destruct (is_def l) eqn:Hd.
+    + rewrite firstn_nil. destruct l as [|b t]; [discriminate|]. cbn in Hd.
+      cbn [rsl_lines]. replace (max =? 0) with false by lia. cbn [drop_crlf].
+      assert (b = GT) by lia. subst b.
+      change (GT =? CR) with false. change (GT =? LF) with false. cbn [orb].
+      change (GT =? GT) with true. reflexivity.
+    + destruct Hh as [Hl Hr].
+      assert (Hrest : forall m, 0 < m -> rsl_lines rest m = firstn (N.to_nat m) (naive_bases rest)).
+      { intros m Hm. apply IH; [exact (proper_tail _ _ Hp)|exact Hr|exact Hm]. }
+      destruct (content l) as [|x C] eqn:HC.
+      * cbn [app]. cbn [rsl_lines]. replace (max =? 0) with false by lia.
+        rewrite (drop_crlf_only l (content_nil_crlf l HC)). now apply Hrest.
+      * rewrite <- HC. apply (rsl_step l rest max x C); try assumption.
+        -- exact (Hl x C HC).
+        -- intros E. apply (content_nolf l rest Hp). rewrite HC. left. now symmetry.
+        -- intros E. destruct (content_head _ _ _ HC) as [t Et]. subst l x. cbn in Hd. discriminate.
+Qed.
+
+Lemma rsl_mid_gen : forall l r (c : nat) max x C,
+  proper (l :: r) -> skipn c (content l) = x :: C -> x <> CR -> x <> GT ->
+  heads_ok r -> 0 < max ->
+  rsl_lines (lines (skipn c l ++ concat r)) max
+  = firstn (N.to_nat max) (skipn c (content l) ++ naive_bases r).
+Proof.
+  intros l r c max x C Hp ES Hcr Hgt Hh Hmax.
+  assert (Hc : (c < length (content l))%nat).
+  { destruct (Compare_dec.le_lt_dec (length (content l)) c) as [H|H]; [|exact H].
+    rewrite skipn_all2 in ES by exact H. discriminate. }
+  pose proof (content_length_le l) as Hle.
+  assert (Hp' : proper (skipn c l :: r)) by (apply proper_skip_head; [assumption|lia]).
+  change (skipn c l ++ concat r) with (concat (skipn c l :: r)).
+  rewrite lines_concat_proper by exact Hp'.
+  assert (EC : content (skipn c l) = skipn c (content l)) by (apply (content_skipn_proper l r); assumption).
+  assert (Hin : In x (content l)).
+  { rewrite <- (firstn_skipn c (content l)), ES. apply in_or_app. right. now left. }
+  rewrite ES in EC. rewrite ES, <- EC.
+  apply (rsl_step (skipn c l) r max x C); try assumption.
+  - intros E. subst x. exact (content_nolf l r Hp Hin).
+  - intros m Hm. apply rsl_from_start_gen; [exact (proper_tail _ _ Hp)|exact Hh|exact Hm].
+Qed.
+
 Lemma fai_query_gen_ok : forall chk r s0,
   s0 < f_len r ->
   fai_query_gen chk r s0 = Some (f_pos r + offset_of (f_lw r) (f_lb r) s0).
@@ -188,6 +264,37 @@ Section Record.
     - lia.
   Qed.
 
+  (* weakest side conditions: no sequence line of the record starts with a CR, and the base at
+     the start of the region is neither a CR nor '>' *)
+  Lemma record_query_exact_gen : forall chk s e,
+    let st := match s with Some p => p | None => 1 end in
+    let en := match e with Some p => p | None => usize_max end in
+    heads_ok body ->
+    nth (N.to_nat (st - 1)) B 0 <> CR -> nth (N.to_nat (st - 1)) B 0 <> GT ->
+    1 <= st -> st <= f_len r -> st <= en ->
+    query_record chk f r s e = QOk (firstn (N.to_nat (en - st + 1)) (skipn (N.to_nat (st - 1)) B)).
+  Proof.
+    intros chk s e st en Hh Hcr Hgt H1 H2 H3. unfold query_record.
+    assert (E0 : match s with Some p => p - 1 | None => 0 end = st - 1) by (destruct s; subst st; lia).
+    rewrite E0. rewrite fai_query_gen_ok by lia.
+    fold st en. replace (en <? st) with false by lia. f_equal.
+    destruct (index_record_spec _ _ _ _ _ _ Hidx) as [_ [Hp [_ [Hlen [Hloc _]]]]].
+    rewrite seek_skipn, Hp. rewrite record_file at 1. rewrite skipn_file.
+    destruct (Hloc (st - 1)) as [l [r' [c [pre' [E [Fp [Hd [Hc [Hsk Hnb]]]]]]]]]; [lia|].
+    rewrite Hsk. fold B in Hnb.
+    assert (Hp' : proper (l :: r')).
+    { apply (proper_suffix pre'). rewrite <- E. apply (proper_suffix (pre ++ [d])).
+      rewrite <- app_assoc. cbn [app]. rewrite <- Hlines. apply lines_proper. }
+    assert (Hh' : heads_ok (l :: r')) by (apply (heads_ok_suffix pre'); [exact Fp|now rewrite <- E]).
+    cbn [heads_ok] in Hh'. rewrite Hd in Hh'. destruct Hh' as [_ Hhr].
+    destruct (skipn c (content l)) as [|x C] eqn:ES.
+    { apply (f_equal (@length N)) in ES. rewrite skipn_length in ES. cbn in ES. lia. }
+    assert (Ex : nth (N.to_nat (st - 1)) B 0 = x).
+    { rewrite nth_skipn_0, Hnb. reflexivity. }
+    rewrite Ex in Hcr, Hgt. rewrite Hnb, <- ES.
+    apply (rsl_mid_gen l r' c _ x C); try assumption. lia.
+  Qed.
+
   (* the repaired Record::query refuses a start beyond the length *)
   Lemma record_query_checked_beyond : forall s e,
     let st := match s with Some p => p | None => 1 end in
@@ -262,6 +369,36 @@ Proof.
   intros f recs err r s e H Hin. destruct (index_file_records _ _ _ _ H Hin) as [B HB].
   destruct HB as [pre [d [body [off' [rest [HL [HR _]]]]]]].
   exact (record_query_checked_beyond f pre d body r off' rest HR s e).
+Qed.
+
+(* the raw sequence lines of the record that r indexes *)
+Definition record_lines (f : list N) (r : fai) (body : list (list N)) : Prop :=
+  exists pre d off' rest,
+    lines f = pre ++ d :: body /\
+    index_record (d :: body) (len (concat pre)) = inr (Some (r, off', rest)) /\
+    parse_def_name (def_content d) = Some (f_name r).
+
+Lemma record_lines_of : forall f r body, record_lines f r body -> record_of f r (naive_bases body).
+Proof.
+  intros f r body [pre [d [off' [rest [H1 [H2 H3]]]]]]. exists pre, d, body, off', rest. auto.
+Qed.
+
+Lemma query_exact_gen : forall f recs err r chk s e,
+  index_file f = (recs, err) -> In r recs ->
+  exists body, record_lines f r body /\
+    let B := naive_bases body in
+    let st := match s with Some p => p | None => 1 end in
+    let en := match e with Some p => p | None => usize_max end in
+    heads_ok body ->
+    nth (N.to_nat (st - 1)) B 0 <> CR -> nth (N.to_nat (st - 1)) B 0 <> GT ->
+    1 <= st -> st <= f_len r -> st <= en ->
+    query_record chk f r s e
+    = QOk (firstn (N.to_nat (en - st + 1)) (skipn (N.to_nat (st - 1)) B)).
+Proof.
+  intros f recs err r chk s e H Hin. destruct (index_file_records _ _ _ _ H Hin) as [B HB].
+  destruct HB as [pre [d [body [off' [rest [HL [HR [EB Hn]]]]]]]]. subst B.
+  exists body. split; [exists pre, d, off', rest; auto|].
+  exact (record_query_exact_gen f pre d body r off' rest HL HR chk s e).
 Qed.
 
 (* the pinned code: a start beyond the length returns bytes of the next record *)
